@@ -1,10 +1,1158 @@
-//! C12 — not implemented yet.
-use crate::ctx::Ctx;
+//! C12 — checkpoint store: faithful round trip, integrity, bounded retention, true latest.
+//!
+//! Requests (all byte strings / names travel as lower-case hex of their UTF-8 bytes; `-` = empty list):
+//!   CKPT-ENC  <fields>                         => `OK <hex file bytes> | <load answer>`   (real save_checkpoint + load_checkpoint)
+//!   CKPT-DEC  <hex file bytes>                 => `OK <fields>` | `ERR <class>` | `PANIC` | `ABORT` | `HANG`   (real load_checkpoint, child process)
+//!   CKPT-SAVE max=<none|n> pid=<hex> ts=<n> dir=<names>   => `OK <names after>`          (real save_checkpoint in a real directory)
+//!   CKPT-LATEST en=<T|F> pid=<hex> dir=<names> => `SOME <name>` | `NONE`
+//!   CKPT-CLEAR pid=<hex> dir=<names>           => `OK <names after>`
+//!   CKPT-POLICY en= pol=<barrier|every:n|time:s|hybrid:b:s> idx= barrier= last=<none|ago:s|future:s>  => `T` | `F`
+//! <fields> = `pid=<hex> idx=<n> ts=<n> pc=<n> ck=<hex> em=<hex> tn=<n> lnt=<hex> pp=<n>`
+//! <names>  = comma-separated hex names sorted bytewise.
+//!
+//! Oracles (never go through the model): round trip field-for-field; a loaded state has the protected
+//! fields and checksum of the state the file was derived from (so any alteration of them was rejected);
+//! never PANIC/ABORT/HANG; after a save at most `max` own files remain, they are the newest, nothing that is
+//! not a well-formed own file is touched; latest = own well-formed file of greatest stamp.
+//! "own well-formed file of pid" := `checkpoint_<pid>_<digits>.bin` whose digits parse as u64.
 
-pub fn run(cx: &mut Ctx) {
-    cx.notes.push("C12: harness not implemented".to_string());
+use crate::ctx::{Ctx, Rng, guarded, hex};
+use ironbeam::checkpoint::{
+    CheckpointConfig, CheckpointManager, CheckpointMetadata, CheckpointPolicy, CheckpointState, compute_checksum,
+};
+use std::io::{BufRead, BufReader, Write};
+use std::path::Path;
+use std::process::{Command, Stdio};
+use std::sync::mpsc;
+use std::time::Duration;
+
+/// address-space limit of the decode child (KiB): a decoder that asks for a huge buffer dies => ABORT
+const CHILD_AS_LIMIT_KIB: u64 = 512 * 1024;
+const CHILD_WATCHDOG_S: u64 = 30;
+
+#[derive(Clone, Debug, PartialEq, Eq)]
+pub struct St {
+    pid: String,
+    idx: u64,
+    ts: u64,
+    pc: u64,
+    ck: String,
+    em: String,
+    tn: u64,
+    lnt: String,
+    pp: u8,
 }
 
-pub fn child(_args: &[String]) -> i32 {
-    2
+impl St {
+    fn meta_string(&self) -> String {
+        format!("{}:{}:{}:{}", self.pid, self.idx, self.ts, self.pc)
+    }
+    fn with_valid_checksum(mut self) -> Self {
+        self.ck = compute_checksum(self.meta_string().as_bytes());
+        self
+    }
+    fn to_real(&self) -> CheckpointState {
+        CheckpointState {
+            pipeline_id: self.pid.clone(),
+            completed_node_index: self.idx as usize,
+            timestamp: self.ts,
+            partition_count: self.pc as usize,
+            checksum: self.ck.clone(),
+            exec_mode: self.em.clone(),
+            metadata: CheckpointMetadata {
+                total_nodes: self.tn as usize,
+                last_node_type: self.lnt.clone(),
+                progress_percent: self.pp,
+            },
+        }
+    }
+    fn from_real(s: &CheckpointState) -> Self {
+        St {
+            pid: s.pipeline_id.clone(),
+            idx: s.completed_node_index as u64,
+            ts: s.timestamp,
+            pc: s.partition_count as u64,
+            ck: s.checksum.clone(),
+            em: s.exec_mode.clone(),
+            tn: s.metadata.total_nodes as u64,
+            lnt: s.metadata.last_node_type.clone(),
+            pp: s.metadata.progress_percent,
+        }
+    }
+    fn fields(&self) -> String {
+        format!(
+            "pid={} idx={} ts={} pc={} ck={} em={} tn={} lnt={} pp={}",
+            hex(self.pid.as_bytes()),
+            self.idx,
+            self.ts,
+            self.pc,
+            hex(self.ck.as_bytes()),
+            hex(self.em.as_bytes()),
+            self.tn,
+            hex(self.lnt.as_bytes()),
+            self.pp
+        )
+    }
+    fn protected(&self) -> (String, u64, u64, u64) {
+        (self.pid.clone(), self.idx, self.ts, self.pc)
+    }
+    /// generator-side encoder (bincode standard layout) used ONLY to build hostile inputs and to know
+    /// field offsets; the real bytes always come from `save_checkpoint`.
+    fn gen_encode(&self) -> (Vec<u8>, Vec<usize>) {
+        let mut out = vec![];
+        let mut str_offsets = vec![];
+        let vi = |out: &mut Vec<u8>, v: u64| gen_varint(out, v);
+        let st = |out: &mut Vec<u8>, offs: &mut Vec<usize>, s: &str| {
+            offs.push(out.len());
+            gen_varint(out, s.len() as u64);
+            out.extend_from_slice(s.as_bytes());
+        };
+        st(&mut out, &mut str_offsets, &self.pid);
+        vi(&mut out, self.idx);
+        vi(&mut out, self.ts);
+        vi(&mut out, self.pc);
+        st(&mut out, &mut str_offsets, &self.ck);
+        st(&mut out, &mut str_offsets, &self.em);
+        vi(&mut out, self.tn);
+        st(&mut out, &mut str_offsets, &self.lnt);
+        out.push(self.pp);
+        (out, str_offsets)
+    }
+}
+
+fn gen_varint(out: &mut Vec<u8>, v: u64) {
+    if v <= 250 {
+        out.push(v as u8);
+    } else if v <= 0xffff {
+        out.push(251);
+        out.extend_from_slice(&(v as u16).to_le_bytes());
+    } else if v <= 0xffff_ffff {
+        out.push(252);
+        out.extend_from_slice(&(v as u32).to_le_bytes());
+    } else {
+        out.push(253);
+        out.extend_from_slice(&v.to_le_bytes());
+    }
+}
+fn varint_len(first: u8) -> usize {
+    match first {
+        251 => 3,
+        252 => 5,
+        253 => 9,
+        _ => 1,
+    }
+}
+
+fn unhex(s: &str) -> Option<Vec<u8>> {
+    if s.len() % 2 != 0 {
+        return None;
+    }
+    (0..s.len() / 2).map(|i| u8::from_str_radix(&s[2 * i..2 * i + 2], 16).ok()).collect()
+}
+
+fn parse_fields(toks: &[&str]) -> Option<St> {
+    let get = |k: &str| -> Option<&str> {
+        toks.iter().find_map(|t| t.strip_prefix(k).and_then(|r| r.strip_prefix('=')))
+    };
+    let s = |k: &str| -> Option<String> { String::from_utf8(unhex(get(k)?)?).ok() };
+    let n = |k: &str| -> Option<u64> { get(k)?.parse().ok() };
+    Some(St { pid: s("pid")?, idx: n("idx")?, ts: n("ts")?, pc: n("pc")?, ck: s("ck")?, em: s("em")?, tn: n("tn")?, lnt: s("lnt")?, pp: n("pp")? as u8 })
+}
+
+/// canonical class of a `load_checkpoint` error
+fn classify_load_err(e: &anyhow::Error) -> String {
+    let top = e.to_string();
+    if top.contains("checksum mismatch") {
+        return "ERR checksum".into();
+    }
+    // bincode's DecodeError displays as its Debug form; find it in the cause chain
+    for cause in e.chain() {
+        let c = cause.to_string();
+        let class = if c.starts_with("UnexpectedEnd") {
+            "eof"
+        } else if c.starts_with("LimitExceeded") {
+            "limit"
+        } else if c.starts_with("InvalidIntegerType") {
+            "int-type"
+        } else if c.starts_with("Utf8") {
+            "utf8"
+        } else if c.starts_with("OutsideUsizeRange") {
+            "usize-range"
+        } else {
+            continue;
+        };
+        return format!("ERR {class}");
+    }
+    if top.contains("Failed to open") || top.contains("Failed to read") {
+        return "ERR io".into();
+    }
+    format!("ERR other:{}", e.root_cause().to_string().split_whitespace().next().unwrap_or("?"))
+}
+
+fn load_answer(r: Result<anyhow::Result<CheckpointState>, String>) -> String {
+    match r {
+        Err(_) => "PANIC".into(),
+        Ok(Err(e)) => classify_load_err(&e),
+        Ok(Ok(s)) => format!("OK {}", St::from_real(&s).fields()),
+    }
+}
+
+/// scratch directory on tmpfs when available (save_checkpoint fsyncs every file)
+fn tmpdir() -> tempfile::TempDir {
+    let shm = Path::new("/dev/shm");
+    if shm.is_dir() {
+        if let Ok(t) = tempfile::tempdir_in(shm) {
+            return t;
+        }
+    }
+    tempfile::tempdir().expect("tempdir")
+}
+
+fn manager(dir: &Path, max: Option<usize>, enabled: bool) -> CheckpointManager {
+    CheckpointManager::new(CheckpointConfig {
+        enabled,
+        directory: dir.to_path_buf(),
+        policy: CheckpointPolicy::AfterEveryBarrier,
+        auto_recover: true,
+        max_checkpoints: max,
+    })
+    .expect("manager")
+}
+
+/// Translator route: constants of the running code printed as Lean definitions (`Generated/Tables.lean`).
+pub fn tables(out: &mut String) {
+    out.push_str("/-- `ironbeam::checkpoint::MAX_CHECKPOINT_DECODE_BYTES` of the running code (bincode `with_limit`) -/\n");
+    out.push_str(&format!("def ckptDecodeLimit : Nat := {}\n\n", ironbeam::checkpoint::MAX_CHECKPOINT_DECODE_BYTES));
+}
+
+// ───────────────────────────── generators ─────────────────────────────
+
+const NUM_EDGES: &[u64] = &[
+    0, 1, 2, 249, 250, 251, 252, 253, 254, 255, 256, 65534, 65535, 65536, 65537, 0xffff_fffe, 0xffff_ffff,
+    0x1_0000_0000, 0x1_0000_0001, 1 << 40, (1 << 63) - 1, 1 << 63, u64::MAX - 1, u64::MAX,
+];
+const CHAR_EDGES: &[char] = &[
+    '\0', '\u{1}', '\t', '\n', ' ', '/', ':', '_', '.', '0', '9', 'a', 'Z', '~', '\u{7f}', '\u{80}', '\u{ff}', '\u{7ff}',
+    '\u{800}', '\u{d7ff}', '\u{e000}', '\u{fffd}', '\u{ffff}', '\u{10000}', '\u{1f600}', '\u{10ffff}', 'é', 'π', '中',
+];
+
+fn rand_num(rng: &mut Rng) -> u64 {
+    match rng.below(4) {
+        0 => *rng.pick(NUM_EDGES),
+        1 => rng.below(300) as u64,
+        2 => rng.next_u64() >> rng.below(64),
+        _ => rng.next_u64(),
+    }
+}
+fn rand_char(rng: &mut Rng, safe_name: bool) -> char {
+    loop {
+        let c = match rng.below(5) {
+            0 => *rng.pick(CHAR_EDGES),
+            1 | 2 => (0x20 + rng.below(0x5f) as u8) as char,
+            3 => char::from_u32(rng.below(0x800) as u32).unwrap_or('x'),
+            _ => char::from_u32(rng.next_u64() as u32 % 0x11_0000).unwrap_or('\u{fffd}'),
+        };
+        if safe_name && (c == '/' || c == '\0') {
+            continue;
+        }
+        return c;
+    }
+}
+/// random string of at most `max_bytes` UTF-8 bytes
+fn rand_string(rng: &mut Rng, max_bytes: usize, safe_name: bool, big: bool) -> String {
+    let exact: &[usize] = if big { &[0, 1, 2, 250, 251, 252, 255, 256, 4095, 4096, 65535, 65536, 70001] } else { &[0, 1, 2, 250, 251, 252, 255, 256, 4095, 4096] };
+    if rng.chance(1, 3) {
+        // ASCII of an exact (boundary) length
+        let n = (*rng.pick(exact)).min(max_bytes);
+        return (0..n).map(|_| (0x21 + rng.below(0x5e) as u8) as char).filter(|c| !(safe_name && *c == '/')).collect();
+    }
+    let target = match rng.below(4) {
+        0 => rng.below(4),
+        1 => rng.below(20),
+        2 => rng.below(300),
+        _ => rng.below(max_bytes + 1),
+    }
+    .min(max_bytes);
+    let mut s = String::new();
+    while s.len() < target {
+        let c = rand_char(rng, safe_name);
+        if s.len() + c.len_utf8() > max_bytes {
+            break;
+        }
+        s.push(c);
+    }
+    s
+}
+fn rand_state(rng: &mut Rng, max_str: usize, pid_safe: bool, big: bool) -> St {
+    let pid_max = if pid_safe { max_str.min(180) } else { max_str };
+    let st = St {
+        pid: rand_string(rng, pid_max, pid_safe, false),
+        idx: rand_num(rng),
+        ts: rand_num(rng),
+        pc: rand_num(rng),
+        ck: String::new(),
+        em: rand_string(rng, max_str, false, big),
+        tn: rand_num(rng),
+        lnt: rand_string(rng, max_str, false, big),
+        pp: rng.next_u64() as u8,
+    };
+    st.with_valid_checksum()
+}
+
+// ───────────────────────────── CKPT-ENC ─────────────────────────────
+
+fn one_enc(cx: &mut Ctx, st: &St, nontrivial: bool) {
+    let tmp = tmpdir();
+    let real = st.to_real();
+    let r = guarded(|| -> anyhow::Result<(std::path::PathBuf, Vec<u8>)> {
+        let mut m = manager(tmp.path(), None, true);
+        let p = m.save_checkpoint(&real)?;
+        let bytes = std::fs::read(&p)?;
+        Ok((p, bytes))
+    });
+    let (answer, saved) = match r {
+        Err(_) => ("PANIC".to_string(), None),
+        Ok(Err(_)) => ("ERR save".to_string(), None),
+        Ok(Ok((p, bytes))) => {
+            let m = manager(tmp.path(), None, true);
+            let lr = guarded(|| m.load_checkpoint(&p));
+            let la = load_answer(lr);
+            (format!("OK {} | {}", hex(&bytes), la), Some((p, la)))
+        }
+    };
+    let i = cx.case(format!("CKPT-ENC {}", st.fields()), answer.clone(), nontrivial);
+    cx.count(&format!("enc:{}", answer.split(' ').next().unwrap_or("?")));
+    match saved {
+        None => cx.oracle_fail(i, "save-fails-on-valid-state", answer),
+        Some((p, la)) => {
+            let want_name = format!("checkpoint_{}_{}.bin", st.pid, st.ts);
+            if p.file_name().and_then(|n| n.to_str()) != Some(want_name.as_str()) {
+                cx.oracle_fail(i, "save-file-name", format!("{:?} != {want_name}", p.file_name()));
+            }
+            let valid = st.ck == compute_checksum(st.meta_string().as_bytes());
+            if valid {
+                cx.count("enc:valid-checksum");
+                if la != format!("OK {}", st.fields()) {
+                    cx.oracle_fail(i, "round-trip-not-field-for-field", format!("saved {} loaded {}", st.fields(), la));
+                }
+            } else {
+                cx.count("enc:wrong-checksum");
+                if !la.starts_with("ERR") {
+                    cx.oracle_fail(i, "wrong-checksum-accepted", la);
+                }
+            }
+        }
+    }
+}
+
+// ───────────────────────────── CKPT-DEC (child) ─────────────────────────────
+
+struct DecCase {
+    bytes: Vec<u8>,
+    /// the valid state the bytes were derived from (None = synthetic bytes)
+    base: Option<St>,
+    /// bytes are exactly the encoding of `base`
+    pristine: bool,
+    tag: &'static str,
+}
+
+/// child: `ibh child c12 dec <infile>`: one hex line per case in, `<k> <answer>` per case out.
+pub fn child(args: &[String]) -> i32 {
+    match args.first().map(String::as_str) {
+        Some("dec") => {
+            let Some(infile) = args.get(1) else { return 2 };
+            let start: usize = args.get(2).and_then(|s| s.parse().ok()).unwrap_or(0);
+            let Ok(text) = std::fs::read_to_string(infile) else { return 2 };
+            let tmp = tmpdir();
+            let m = manager(tmp.path(), None, true);
+            let path = tmp.path().join("case.bin");
+            let out = std::io::stdout();
+            for (k, line) in text.lines().enumerate().skip(start) {
+                let Some(bytes) = unhex(line.trim()) else { return 2 };
+                if std::fs::write(&path, &bytes).is_err() {
+                    return 2;
+                }
+                let a = load_answer(guarded(|| m.load_checkpoint(&path)));
+                let mut o = out.lock();
+                let _ = writeln!(o, "{k} {a}");
+                let _ = o.flush();
+            }
+            0
+        }
+        _ => 2,
+    }
+}
+
+/// Run all decode cases in watchdog children with an address-space limit. A child that dies on case k
+/// yields ABORT for k (HANG if the watchdog fired) and a fresh child continues at k+1.
+fn run_dec_children(cases: &[DecCase], work: &Path) -> Vec<String> {
+    let infile = work.join("dec_cases.hex");
+    {
+        let mut f = std::io::BufWriter::new(std::fs::File::create(&infile).expect("dec infile"));
+        for c in cases {
+            writeln!(f, "{}", hex(&c.bytes)).unwrap();
+        }
+        f.flush().unwrap();
+    }
+    let exe = std::env::current_exe().expect("current_exe");
+    let mut answers: Vec<String> = Vec::with_capacity(cases.len());
+    while answers.len() < cases.len() {
+        let start = answers.len();
+        let mut child = Command::new("sh")
+            .arg("-c")
+            .arg(format!("ulimit -v {CHILD_AS_LIMIT_KIB}; exec \"$0\" child c12 dec \"$1\" \"$2\""))
+            .arg(&exe)
+            .arg(&infile)
+            .arg(start.to_string())
+            .stdout(Stdio::piped())
+            .stderr(Stdio::null())
+            .spawn()
+            .expect("spawn child");
+        let stdout = child.stdout.take().unwrap();
+        let (tx, rx) = mpsc::channel::<String>();
+        let reader = std::thread::spawn(move || {
+            for line in BufReader::new(stdout).lines().map_while(Result::ok) {
+                if tx.send(line).is_err() {
+                    break;
+                }
+            }
+        });
+        let mut hung = false;
+        loop {
+            match rx.recv_timeout(Duration::from_secs(CHILD_WATCHDOG_S)) {
+                Ok(line) => {
+                    let (k, a) = line.split_once(' ').unwrap_or((&line, ""));
+                    if k.parse::<usize>().ok() == Some(answers.len()) {
+                        answers.push(a.to_string());
+                    }
+                }
+                Err(mpsc::RecvTimeoutError::Timeout) => {
+                    hung = true;
+                    let _ = child.kill();
+                    break;
+                }
+                Err(mpsc::RecvTimeoutError::Disconnected) => break,
+            }
+        }
+        let status = child.wait().ok();
+        let _ = reader.join();
+        if status.and_then(|s| s.code()) == Some(2) {
+            panic!("ibh child c12 dec: set-up failure (exit 2) at case {}", answers.len());
+        }
+        if answers.len() < cases.len() {
+            // the child stopped before finishing: the case it was working on killed it
+            answers.push(if hung { "HANG".into() } else { "ABORT".into() });
+        }
+    }
+    let _ = std::fs::remove_file(&infile);
+    answers
+}
+
+fn dec_oracle(cx: &mut Ctx, i: usize, c: &DecCase, ans: &str) {
+    if ans == "PANIC" || ans == "ABORT" || ans == "HANG" {
+        let sig = match ans {
+            "PANIC" => "load-panics-on-malformed-bytes",
+            "ABORT" => "load-aborts-on-malformed-bytes(huge allocation)",
+            _ => "load-hangs-on-malformed-bytes",
+        };
+        cx.oracle_fail(i, sig, format!("{} on {} bytes ({})", ans, c.bytes.len(), c.tag));
+        return;
+    }
+    if let Some(rest) = ans.strip_prefix("OK ") {
+        let toks: Vec<&str> = rest.split(' ').collect();
+        let Some(got) = parse_fields(&toks) else {
+            cx.oracle_fail(i, "unparsable-real-answer", ans.to_string());
+            return;
+        };
+        // whatever is accepted carries a checksum that matches its own protected fields
+        if got.ck != compute_checksum(got.meta_string().as_bytes()) {
+            cx.oracle_fail(i, "accepted-state-with-wrong-checksum", ans.to_string());
+        }
+        if let Some(b) = &c.base {
+            if got.protected() != b.protected() || got.ck != b.ck {
+                cx.oracle_fail(i, "altered-protected-field-or-checksum-accepted", format!("base {} loaded {}", b.fields(), got.fields()));
+            }
+            if c.pristine && &got != b {
+                cx.oracle_fail(i, "round-trip-not-field-for-field", format!("base {} loaded {}", b.fields(), got.fields()));
+            }
+        }
+    } else if c.pristine {
+        cx.oracle_fail(i, "pristine-file-rejected", ans.to_string());
+    }
+}
+
+fn short_base_a() -> St {
+    St { pid: "p".into(), idx: 3, ts: 7, pc: 2, ck: String::new(), em: "seq".into(), tn: 9, lnt: "S".into(), pp: 50 }.with_valid_checksum()
+}
+fn short_base_b() -> St {
+    // multi-byte varints of every width and every UTF-8 sequence length
+    St { pid: "é_中".into(), idx: 300, ts: 1 << 40, pc: 70000, ck: String::new(), em: "\u{1f600}\u{7f}".into(), tn: 251, lnt: "\u{7ff}\u{ffff}".into(), pp: 255 }
+        .with_valid_checksum()
+}
+
+fn hostile_lengths() -> Vec<u64> {
+    vec![
+        1 << 63, u64::MAX, (1 << 63) - 1, 1 << 62, 1 << 48, 1 << 40, 1 << 34, 1 << 32, 3 << 30, 1 << 30, // far beyond the child's address-space limit
+        (1 << 20) + 1, 1 << 20, (1 << 20) - 64, 70000, 65536, 300, 251,
+    ]
+}
+
+fn gen_dec_cases(cx: &mut Ctx) -> Vec<DecCase> {
+    let mut v: Vec<DecCase> = vec![];
+    let base_a = short_base_a();
+    let base_b = short_base_b();
+    // (1) corpus / design witnesses
+    {
+        // DESIGN §8 #8: first length prefix = 2^63
+        let mut b = vec![];
+        gen_varint(&mut b, 1 << 63);
+        v.push(DecCase { bytes: b, base: None, pristine: false, tag: "corpus:len=2^63" });
+        let (enc, offs) = base_a.gen_encode();
+        for (si, &off) in offs.iter().enumerate() {
+            for &l in &hostile_lengths() {
+                let mut b = enc[..off].to_vec();
+                gen_varint(&mut b, l);
+                b.extend_from_slice(&enc[off + varint_len(enc[off])..]);
+                let _ = si;
+                v.push(DecCase { bytes: b, base: Some(base_a.clone()), pristine: false, tag: "corpus:hostile-length" });
+            }
+        }
+        v.push(DecCase { bytes: vec![], base: None, pristine: false, tag: "corpus:empty" });
+        for m in 251..=255u8 {
+            v.push(DecCase { bytes: vec![m], base: None, pristine: false, tag: "corpus:lonely-marker" });
+            v.push(DecCase { bytes: vec![1, b'p', m], base: None, pristine: false, tag: "corpus:lonely-marker" });
+            v.push(DecCase { bytes: vec![1, b'p', m, 0, 0, 0, 0, 0, 0, 0, 0, 0, 0, 0, 0, 0], base: None, pristine: false, tag: "corpus:marker-in-u64" });
+        }
+    }
+    // (2) exhaustive single-fault block over two short states
+    let mut n_exh = 0usize;
+    for base in [&base_a, &base_b] {
+        let (enc, _) = base.gen_encode();
+        v.push(DecCase { bytes: enc.clone(), base: Some(base.clone()), pristine: true, tag: "exh:pristine" });
+        for i in 0..enc.len() {
+            for bit in 0..8 {
+                let mut b = enc.clone();
+                b[i] ^= 1 << bit;
+                v.push(DecCase { bytes: b, base: Some(base.clone()), pristine: false, tag: "exh:bitflip" });
+                n_exh += 1;
+            }
+            for val in [0u8, 1, 0x7f, 0x80, 0xbf, 0xc0, 0xc1, 0xc2, 0xe0, 0xed, 0xf0, 0xf4, 0xf5, 250, 251, 252, 253, 254, 255] {
+                if enc[i] != val {
+                    let mut b = enc.clone();
+                    b[i] = val;
+                    v.push(DecCase { bytes: b, base: Some(base.clone()), pristine: false, tag: "exh:overwrite" });
+                    n_exh += 1;
+                }
+            }
+            v.push(DecCase { bytes: enc[..i].to_vec(), base: Some(base.clone()), pristine: false, tag: "exh:truncate" });
+            n_exh += 1;
+        }
+    }
+    cx.exhaustive_blocks.push(format!(
+        "CKPT-DEC: every single-bit flip, every truncation and 19 overwrite values at every byte of two short encoded states (all varint widths, 1-4 byte UTF-8) = {n_exh} files"
+    ));
+    // (3) random block
+    let rounds = cx.budget(6000, 150000);
+    for _ in 0..rounds {
+        let big = cx.tier != crate::ctx::Tier::Quick && cx.rng.chance(1, 200);
+        let max_str = match cx.rng.below(10) {
+            0 => 4096,
+            1 | 2 => 300,
+            _ => 24,
+        };
+        let st = rand_state(&mut cx.rng, max_str, false, big);
+        let (enc, offs) = st.gen_encode();
+        let kind = cx.rng.below(13);
+        let (bytes, pristine, tag): (Vec<u8>, bool, &'static str) = match kind {
+            0 => (enc.clone(), true, "rnd:pristine"),
+            1 | 2 => {
+                let mut b = enc.clone();
+                let flips = 1 + cx.rng.below(3);
+                for _ in 0..flips {
+                    let i = cx.rng.below(b.len());
+                    b[i] ^= 1 << cx.rng.below(8);
+                }
+                (b, false, "rnd:bitflips")
+            }
+            3 => {
+                let mut b = enc.clone();
+                let i = cx.rng.below(b.len());
+                b[i] = cx.rng.next_u64() as u8;
+                (b, false, "rnd:overwrite")
+            }
+            4 => (enc[..cx.rng.below(enc.len() + 1)].to_vec(), false, "rnd:truncate"),
+            5 => {
+                let mut b = enc.clone();
+                let i = cx.rng.below(b.len() + 1);
+                b.insert(i, cx.rng.next_u64() as u8);
+                (b, false, "rnd:insert")
+            }
+            6 => {
+                let mut b = enc.clone();
+                let i = cx.rng.below(b.len());
+                b.remove(i);
+                (b, false, "rnd:delete")
+            }
+            7 => {
+                let mut b = enc.clone();
+                let n = 1 + cx.rng.below(16);
+                for _ in 0..n {
+                    b.push(cx.rng.next_u64() as u8);
+                }
+                (b, false, "rnd:trailing-garbage")
+            }
+            8 => {
+                // hostile / random length prefix at a string position
+                let off = offs[cx.rng.below(offs.len())];
+                let l = if cx.rng.chance(1, 2) { *cx.rng.pick(&hostile_lengths()) } else { rand_num(&mut cx.rng) };
+                let mut b = enc[..off].to_vec();
+                gen_varint(&mut b, l);
+                b.extend_from_slice(&enc[off + varint_len(enc[off])..]);
+                (b, false, "rnd:length-prefix")
+            }
+            9 => {
+                // non-canonical (wider) varint for the same value: fields unchanged, must still load
+                let off = offs[cx.rng.below(offs.len())];
+                let l = match enc[off] {
+                    x @ 0..=250 => x as u64,
+                    _ => u64::MAX,
+                };
+                if l == u64::MAX {
+                    (enc.clone(), true, "rnd:pristine")
+                } else {
+                    let mut b = enc[..off].to_vec();
+                    match cx.rng.below(3) {
+                        0 => {
+                            b.push(251);
+                            b.extend_from_slice(&(l as u16).to_le_bytes());
+                        }
+                        1 => {
+                            b.push(252);
+                            b.extend_from_slice(&(l as u32).to_le_bytes());
+                        }
+                        _ => {
+                            b.push(253);
+                            b.extend_from_slice(&l.to_le_bytes());
+                        }
+                    }
+                    b.extend_from_slice(&enc[off + 1..]);
+                    (b, true, "rnd:noncanonical-varint")
+                }
+            }
+            10 => {
+                // re-encode with one protected field changed but the old checksum kept
+                let mut t = st.clone();
+                match cx.rng.below(4) {
+                    0 => t.pid.push('x'),
+                    1 => t.idx = t.idx.wrapping_add(1 + cx.rng.below(3) as u64),
+                    2 => t.ts = t.ts.wrapping_sub(1),
+                    _ => t.pc ^= 1 << cx.rng.below(64),
+                }
+                (t.gen_encode().0, false, "rnd:protected-field-rewritten")
+            }
+            11 => {
+                // re-encode with the checksum replaced (empty / truncated / upper-cased / of another state / one char changed)
+                let mut t = st.clone();
+                match cx.rng.below(5) {
+                    0 => t.ck.clear(),
+                    1 => {
+                        t.ck.pop();
+                    }
+                    2 => t.ck = t.ck.to_uppercase(),
+                    3 => t.ck = compute_checksum(format!("{}:{}:{}:{}", t.pid, t.idx, t.ts, t.pc.wrapping_add(1)).as_bytes()),
+                    _ => {
+                        let i = cx.rng.below(t.ck.len().max(1));
+                        let mut b = t.ck.clone().into_bytes();
+                        if !b.is_empty() {
+                            b[i] = if b[i] == b'0' { b'1' } else { b'0' };
+                        }
+                        t.ck = String::from_utf8(b).unwrap_or_default();
+                    }
+                }
+                (t.gen_encode().0, false, "rnd:checksum-rewritten")
+            }
+            _ => {
+                let n = cx.rng.below(64);
+                ((0..n).map(|_| cx.rng.next_u64() as u8).collect(), false, "rnd:random-bytes")
+            }
+        };
+        let base = if tag == "rnd:random-bytes" { None } else { Some(st) };
+        v.push(DecCase { bytes, base, pristine, tag });
+    }
+    v
+}
+
+fn run_dec(cx: &mut Ctx) {
+    let cases = gen_dec_cases(cx);
+    let work = std::env::temp_dir().join(format!("ibh-c12-{}-{}", std::process::id(), cx.seed));
+    let _ = std::fs::create_dir_all(&work);
+    let answers = run_dec_children(&cases, &work);
+    let _ = std::fs::remove_dir_all(&work);
+    for (c, a) in cases.iter().zip(answers.iter()) {
+        let nt = !c.bytes.is_empty();
+        let i = cx.case(format!("CKPT-DEC {}", if c.bytes.is_empty() { "-".to_string() } else { hex(&c.bytes) }), a.clone(), nt);
+        cx.count(&format!("dec:in:{}", c.tag));
+        let class: String = a.split(' ').take(if a.starts_with("ERR") { 2 } else { 1 }).collect::<Vec<_>>().join(" ");
+        cx.count(&format!("dec:out:{class}"));
+        dec_oracle(cx, i, c, a);
+    }
+}
+
+// ───────────────────────────── histories ─────────────────────────────
+
+fn listing(dir: &Path) -> Vec<String> {
+    let mut v: Vec<String> = std::fs::read_dir(dir)
+        .map(|rd| rd.filter_map(Result::ok).filter_map(|e| e.file_name().to_str().map(str::to_string)).collect())
+        .unwrap_or_default();
+    v.sort_by(|a, b| a.as_bytes().cmp(b.as_bytes()));
+    v
+}
+fn enc_names(v: &[String]) -> String {
+    if v.is_empty() { "-".into() } else { v.iter().map(|n| hex(n.as_bytes())).collect::<Vec<_>>().join(",") }
+}
+/// the oracle's definition of "a well-formed checkpoint file of pipeline `pid`" and its stamp
+fn own_stamp(pid: &str, name: &str) -> Option<u64> {
+    let rest = name.strip_prefix("checkpoint_")?.strip_prefix(pid)?.strip_prefix('_')?.strip_suffix(".bin")?;
+    if rest.is_empty() || !rest.bytes().all(|b| b.is_ascii_digit()) {
+        return None;
+    }
+    rest.parse::<u64>().ok()
+}
+fn own_files(pid: &str, names: &[String]) -> Vec<(u64, String)> {
+    names.iter().filter_map(|n| own_stamp(pid, n).map(|t| (t, n.clone()))).collect()
+}
+fn has_tie(own: &[(u64, String)]) -> bool {
+    let mut ts: Vec<u64> = own.iter().map(|x| x.0).collect();
+    ts.sort_unstable();
+    ts.windows(2).any(|w| w[0] == w[1])
+}
+
+const HIST_PIDS: &[&str] = &["p", "p_x", "p_7", "q", "", "p.bin", "a.b", "π", "p_x_y", "7"];
+/// look-alike / foreign names relative to a pipeline id: none of them is a well-formed checkpoint of `pid`
+/// (some are well-formed checkpoints of ANOTHER pipeline, e.g. `<pid>_x`)
+fn foreign_for(pid: &str) -> Vec<String> {
+    let mut v: Vec<String> = [
+        "garbage", "5.BIN", "+5", "-1", "", "5.bin.tmp", "99999999999999999999", "18446744073709551616", "5_6", "x_50", "7_50",
+        "5.Bin", "1e3", " 4", "4 ", "٣", "0x10", "5.bin", "+", "+0", "5.", ".5",
+    ]
+    .iter()
+    .map(|m| {
+        if m.ends_with(".BIN") || m.ends_with(".Bin") || m.ends_with(".tmp") {
+            format!("checkpoint_{pid}_{m}")
+        } else {
+            format!("checkpoint_{pid}_{m}.bin")
+        }
+    })
+    .collect();
+    v.push(format!("checkpoint_{pid}_5"));
+    v.push(format!("checkpoint_{pid}_5bin"));
+    v.push(format!("checkpoint_{pid}"));
+    v.push(format!("checkpoint_{pid}5.bin"));
+    v.push(format!("xcheckpoint_{pid}_9.bin"));
+    v.push(format!("Checkpoint_{pid}_9.bin"));
+    v.push(format!("checkpoint_{pid}_9.bin "));
+    v.push(format!("checkpoint_{pid}x_9.bin"));
+    v.push("notes.txt".into());
+    v.push(".bin".into());
+    v.retain(|n| own_stamp(pid, n).is_none());
+    v
+}
+
+fn hist_state(pid: &str, ts: u64) -> CheckpointState {
+    St { pid: pid.into(), idx: 1, ts, pc: 1, ck: String::new(), em: "sequential".into(), tn: 3, lnt: "Stateless".into(), pp: 33 }
+        .with_valid_checksum()
+        .to_real()
+}
+fn max_str(m: Option<usize>) -> String {
+    m.map_or("none".into(), |x| x.to_string())
+}
+
+fn op_save(cx: &mut Ctx, dir: &Path, pid: &str, ts: u64, max: Option<usize>) {
+    let before = listing(dir);
+    let new_name = format!("checkpoint_{pid}_{ts}.bin");
+    let mut own_all = own_files(pid, &before);
+    if !before.contains(&new_name) {
+        own_all.push((ts, new_name.clone()));
+    }
+    if has_tie(&own_all) {
+        cx.count("hist:skipped(tie between two spellings of one stamp)");
+        return;
+    }
+    let state = hist_state(pid, ts);
+    let r = guarded(|| {
+        let mut m = manager(dir, max, true);
+        m.save_checkpoint(&state).map(|_| ())
+    });
+    let after = listing(dir);
+    let answer = match &r {
+        Err(_) => "PANIC".to_string(),
+        Ok(Err(_)) => "ERR save".to_string(),
+        Ok(Ok(())) => format!("OK {}", enc_names(&after)),
+    };
+    let i = cx.case(
+        format!("CKPT-SAVE max={} pid={} ts={} dir={}", max_str(max), hex(pid.as_bytes()), ts, enc_names(&before)),
+        answer.clone(),
+        before.len() >= 2,
+    );
+    cx.count(&format!("hist:save:max={}", max_str(max)));
+    if !matches!(r, Ok(Ok(()))) {
+        cx.oracle_fail(i, "save-fails-or-panics", answer);
+        return;
+    }
+    // oracle: foreign / other pipelines' files untouched
+    let foreign_before: Vec<&String> = before.iter().filter(|n| own_stamp(pid, n).is_none() && **n != new_name).collect();
+    for n in &foreign_before {
+        if !after.contains(n) {
+            cx.oracle_fail(i, "save-deletes-file-of-other-pipeline-or-foreign-file", format!("saving pid {pid:?} ts {ts} max {max:?} removed {n:?}"));
+        }
+    }
+    for n in &after {
+        if !before.contains(n) && *n != new_name {
+            cx.oracle_fail(i, "save-creates-unexpected-file", n.clone());
+        }
+    }
+    // oracle: bounded retention, newest kept
+    let kept = own_files(pid, &after);
+    let dropped: Vec<&(u64, String)> = own_all.iter().filter(|x| !after.contains(&x.1)).collect();
+    match max {
+        None => {
+            if !dropped.is_empty() {
+                cx.oracle_fail(i, "unbounded-retention-deletes", format!("{dropped:?}"));
+            }
+        }
+        Some(m) => {
+            if kept.len() > m {
+                cx.oracle_fail(i, "more-than-max-own-checkpoints-remain", format!("max {m}, own files left {kept:?}"));
+            }
+            if kept.len() < m.min(own_all.len()) {
+                cx.oracle_fail(i, "fewer-than-max-own-checkpoints-remain", format!("max {m}, own before+new {own_all:?}, left {kept:?}"));
+            }
+            if let (Some(dmax), Some(kmin)) = (dropped.iter().map(|x| x.0).max(), kept.iter().map(|x| x.0).min()) {
+                if dmax > kmin {
+                    cx.oracle_fail(i, "kept-checkpoints-are-not-the-newest", format!("dropped stamp {dmax} > kept stamp {kmin}"));
+                }
+            }
+        }
+    }
+    if !dropped.is_empty() {
+        cx.count("hist:save:deleted-some");
+    }
+}
+
+fn op_latest(cx: &mut Ctx, dir: &Path, pid: &str, enabled: bool) {
+    let names = listing(dir);
+    let own = own_files(pid, &names);
+    if has_tie(&own) {
+        cx.count("hist:skipped(tie between two spellings of one stamp)");
+        return;
+    }
+    let r = guarded(|| manager(dir, Some(3), enabled).find_latest_checkpoint(pid));
+    let got: Option<Option<String>> = match &r {
+        Ok(Ok(p)) => Some(p.as_ref().and_then(|p| p.file_name()).and_then(|n| n.to_str()).map(str::to_string)),
+        _ => None,
+    };
+    let answer = match (&r, &got) {
+        (Err(_), _) => "PANIC".to_string(),
+        (Ok(Err(_)), _) => "ERR latest".to_string(),
+        (_, Some(Some(n))) => format!("SOME {}", hex(n.as_bytes())),
+        _ => "NONE".to_string(),
+    };
+    let i = cx.case(
+        format!("CKPT-LATEST en={} pid={} dir={}", if enabled { "T" } else { "F" }, hex(pid.as_bytes()), enc_names(&names)),
+        answer.clone(),
+        names.len() >= 2,
+    );
+    cx.count(&format!("hist:latest:{}", answer.split(' ').next().unwrap_or("?")));
+    let want: Option<String> = if enabled { own.iter().max_by_key(|x| x.0).map(|x| x.1.clone()) } else { None };
+    match got {
+        None => cx.oracle_fail(i, "latest-fails-or-panics", answer),
+        Some(g) => {
+            if g != want {
+                let sig = match (&g, &want) {
+                    (Some(n), _) if own_stamp(pid, n).is_none() => "latest-returns-foreign-or-other-pipelines-file",
+                    (Some(_), Some(_)) => "latest-is-not-greatest-timestamp",
+                    (None, Some(_)) => "latest-misses-existing-checkpoint",
+                    _ => "latest-wrong",
+                };
+                cx.oracle_fail(i, sig, format!("latest({pid:?}) = {g:?}, expected {want:?} in {names:?}"));
+            }
+        }
+    }
+}
+
+fn op_clear(cx: &mut Ctx, dir: &Path, pid: &str) {
+    let before = listing(dir);
+    let r = guarded(|| manager(dir, Some(3), true).clear_checkpoints(pid));
+    let after = listing(dir);
+    let answer = match &r {
+        Err(_) => "PANIC".to_string(),
+        Ok(Err(_)) => "ERR clear".to_string(),
+        Ok(Ok(())) => format!("OK {}", enc_names(&after)),
+    };
+    let i = cx.case(format!("CKPT-CLEAR pid={} dir={}", hex(pid.as_bytes()), enc_names(&before)), answer.clone(), before.len() >= 2);
+    cx.count("hist:clear");
+    if !matches!(r, Ok(Ok(()))) {
+        cx.oracle_fail(i, "clear-fails-or-panics", answer);
+        return;
+    }
+    for n in &before {
+        let own = own_stamp(pid, n).is_some();
+        if own && after.contains(n) {
+            cx.oracle_fail(i, "clear-leaves-own-checkpoint", n.clone());
+        }
+        if !own && !after.contains(n) {
+            cx.oracle_fail(i, "clear-deletes-file-of-other-pipeline-or-foreign-file", format!("clear({pid:?}) removed {n:?}"));
+        }
+    }
+}
+
+fn place(dir: &Path, name: &str) {
+    let _ = std::fs::write(dir.join(name), b"foreign");
+}
+
+fn rand_ts(rng: &mut Rng) -> u64 {
+    match rng.below(8) {
+        0 => *rng.pick(&[0u64, 1, 9, 10, 99, 100, u64::MAX, u64::MAX - 1, 1 << 63]),
+        1 => rng.next_u64(),
+        _ => rng.below(40) as u64,
+    }
+}
+
+fn run_hist(cx: &mut Ctx) {
+    // (1) design witnesses (DESIGN §8 #9)
+    {
+        let tmp = tmpdir();
+        place(tmp.path(), "checkpoint_p_x_50.bin");
+        for ts in [60u64, 70, 80] {
+            op_save(cx, tmp.path(), "p", ts, Some(2));
+        }
+        let tmp2 = tmpdir();
+        place(tmp2.path(), "checkpoint_q_garbage.bin");
+        op_latest(cx, tmp2.path(), "q", true);
+        op_save(cx, tmp2.path(), "q", 5, Some(1));
+        op_latest(cx, tmp2.path(), "q", true);
+        op_clear(cx, tmp2.path(), "q");
+        // out-of-order stamps, one pipeline
+        let tmp3 = tmpdir();
+        for ts in [50u64, 10, 40, 20, 30, 9, 100] {
+            op_save(cx, tmp3.path(), "p", ts, Some(3));
+            op_latest(cx, tmp3.path(), "p", true);
+        }
+        op_latest(cx, tmp3.path(), "p", false);
+    }
+    // (1b) every look-alike name, alone and all together, for several pipeline ids
+    let mut n_look = 0usize;
+    for pid in ["p", "p_x", "", "a.b", "7"] {
+        let look = foreign_for(pid);
+        for f in &look {
+            let tmp = tmpdir();
+            place(tmp.path(), f);
+            op_latest(cx, tmp.path(), pid, true);
+            op_save(cx, tmp.path(), pid, 1, Some(0));
+            op_save(cx, tmp.path(), pid, 7, Some(1));
+            op_latest(cx, tmp.path(), pid, true);
+            op_clear(cx, tmp.path(), pid);
+            n_look += 1;
+        }
+        let tmp = tmpdir();
+        for f in &look {
+            place(tmp.path(), f);
+        }
+        for (ts, max) in [(5u64, Some(2usize)), (3, Some(2)), (9, Some(2)), (4, Some(1)), (2, Some(0)), (6, None)] {
+            op_save(cx, tmp.path(), pid, ts, max);
+            op_latest(cx, tmp.path(), pid, true);
+        }
+        op_clear(cx, tmp.path(), pid);
+    }
+    cx.exhaustive_blocks.push(format!(
+        "CKPT-HIST: each of the look-alike file names (non-numeric / signed / overflowing / upper-case / nested stamps, other pipelines extending the id, ...) alone in a directory x 5 pipeline ids: latest, save max=0, save max=1, latest, clear ({n_look} directories), plus all of them together under a 6-save history"
+    ));
+    // (2) exhaustive small scope: all save histories of length <= L over 2 pids x 3 stamps, every max in {None,0,1,2}
+    let len = if cx.tier == crate::ctx::Tier::Quick { 4 } else { 5 };
+    let alphabet: Vec<(&str, u64)> = vec![("p", 1), ("p", 2), ("p", 10), ("p_x", 1), ("p_x", 2), ("p_x", 10)];
+    let mut count = 0usize;
+    for max in [None, Some(0usize), Some(1), Some(2)] {
+        let mut idx = vec![0usize; len];
+        'outer: loop {
+            for l in 1..=len {
+                // histories are prefixes; run only full-length ones plus shorter ones once (when tail is all zero)
+                if l < len && idx[l..].iter().any(|&x| x != 0) {
+                    continue;
+                }
+                let tmp = tmpdir();
+                place(tmp.path(), "checkpoint_p_zz.bin");
+                for &k in &idx[..l] {
+                    let (pid, ts) = alphabet[k];
+                    op_save(cx, tmp.path(), pid, ts, max);
+                }
+                op_latest(cx, tmp.path(), "p", true);
+                op_latest(cx, tmp.path(), "p_x", true);
+                count += 1;
+            }
+            let mut j = 0;
+            loop {
+                if j == len {
+                    break 'outer;
+                }
+                idx[j] += 1;
+                if idx[j] < alphabet.len() {
+                    break;
+                }
+                idx[j] = 0;
+                j += 1;
+            }
+        }
+    }
+    cx.exhaustive_blocks.push(format!(
+        "CKPT-HIST: all save histories of length <= {len} over pipelines {{p, p_x}} x stamps {{1,2,10}} with a foreign file present, max in {{None,0,1,2}}, latest of both pipelines after each ({count} histories)"
+    ));
+    // (3) random histories
+    let rounds = cx.budget(1000, 20000);
+    for _ in 0..rounds {
+        let tmp = tmpdir();
+        let dir = tmp.path();
+        let npids = 1 + cx.rng.below(3);
+        let pids: Vec<&str> = (0..npids).map(|_| *cx.rng.pick(HIST_PIDS)).collect();
+        let mut max = *cx.rng.pick(&[None, Some(0usize), Some(1), Some(2), Some(3), Some(5)]);
+        for _ in 0..cx.rng.below(4) {
+            let look = foreign_for(*cx.rng.pick(&pids));
+            let f: String = cx.rng.pick(&look[..]).clone();
+            place(dir, &f);
+            cx.count("hist:place-foreign");
+        }
+        let ops = 1 + cx.rng.below(12);
+        for _ in 0..ops {
+            let pid = *cx.rng.pick(&pids);
+            match cx.rng.below(12) {
+                0..=5 => {
+                    let ts = rand_ts(&mut cx.rng);
+                    op_save(cx, dir, pid, ts, max);
+                }
+                6 | 7 => {
+                    let en = !cx.rng.chance(1, 8);
+                    op_latest(cx, dir, pid, en);
+                }
+                8 => op_clear(cx, dir, pid),
+                9 => {
+                    let look = foreign_for(pid);
+                    let f: String = cx.rng.pick(&look[..]).clone();
+            place(dir, &f);
+                    cx.count("hist:place-foreign");
+                }
+                10 => {
+                    // a well-formed file of a (possibly different) pipeline placed by hand, sometimes with leading zeros
+                    let other = *cx.rng.pick(HIST_PIDS);
+                    let ts = rand_ts(&mut cx.rng);
+                    let name = if cx.rng.chance(1, 4) { format!("checkpoint_{other}_0{ts}.bin") } else { format!("checkpoint_{other}_{ts}.bin") };
+                    place(dir, &name);
+                    cx.count("hist:place-wellformed");
+                }
+                _ => {
+                    max = *cx.rng.pick(&[None, Some(0usize), Some(1), Some(2), Some(3), Some(5)]);
+                    cx.count("hist:change-max");
+                }
+            }
+        }
+    }
+}
+
+// ───────────────────────────── should_checkpoint (clock-free policies) ─────────────────────────────
+
+fn run_policy(cx: &mut Ctx) {
+    use std::time::{Duration, SystemTime};
+    let ns: Vec<usize> = vec![0, 1, 2, 3, 5];
+    let mut pols: Vec<(String, CheckpointPolicy)> = vec![("barrier".into(), CheckpointPolicy::AfterEveryBarrier)];
+    for &n in &ns {
+        pols.push((format!("every:{n}"), CheckpointPolicy::EveryNNodes(n)));
+    }
+    for secs in [0u64, 5, 10, 100] {
+        pols.push((format!("time:{secs}"), CheckpointPolicy::TimeInterval(secs)));
+        pols.push((format!("hybrid:T:{secs}"), CheckpointPolicy::Hybrid { barriers: true, interval_secs: secs }));
+        pols.push((format!("hybrid:F:{secs}"), CheckpointPolicy::Hybrid { barriers: false, interval_secs: secs }));
+    }
+    // the last checkpoint time relative to "now": never / 10 s ago / 100 s in the future (clock went backwards).
+    // Margins are seconds wide, the call takes microseconds, so the answers do not depend on timing.
+    let lasts: Vec<&str> = vec!["none", "ago:10", "future:100"];
+    for enabled in [true, false] {
+        for barrier in [true, false] {
+            for idx in 0..8usize {
+                for (name, pol) in &pols {
+                    let clocked = name.starts_with("time") || name.starts_with("hybrid");
+                    for last in &lasts {
+                        if !clocked && *last != "none" {
+                            continue;
+                        }
+                        if clocked && idx > 1 {
+                            continue;
+                        }
+                        let r = guarded(|| {
+                            let mut m = CheckpointManager::new(CheckpointConfig {
+                                enabled,
+                                directory: std::env::temp_dir(),
+                                policy: *pol,
+                                auto_recover: false,
+                                max_checkpoints: None,
+                            })
+                            .expect("manager");
+                            m.last_checkpoint_time = match *last {
+                                "ago:10" => Some(SystemTime::now() - Duration::from_secs(10)),
+                                "future:100" => Some(SystemTime::now() + Duration::from_secs(100)),
+                                _ => None,
+                            };
+                            m.should_checkpoint(idx, barrier, 10)
+                        });
+                        let a = match r {
+                            Ok(true) => "T",
+                            Ok(false) => "F",
+                            Err(_) => "PANIC",
+                        };
+                        let i = cx.case(
+                            format!(
+                                "CKPT-POLICY en={} pol={} idx={} barrier={} last={}",
+                                if enabled { "T" } else { "F" },
+                                name,
+                                idx,
+                                if barrier { "T" } else { "F" },
+                                last
+                            ),
+                            a.into(),
+                            false,
+                        );
+                        cx.count("policy");
+                        if a == "PANIC" {
+                            cx.oracle_fail(i, "should-checkpoint-panics", name.clone());
+                        }
+                    }
+                }
+            }
+        }
+    }
+}
+
+pub fn run(cx: &mut Ctx) {
+    // CKPT-ENC: corpus, then random states
+    one_enc(cx, &short_base_a(), true);
+    one_enc(cx, &short_base_b(), true);
+    {
+        let mut wrong = short_base_a();
+        wrong.ck = "00".repeat(32);
+        one_enc(cx, &wrong, true);
+        for &n in NUM_EDGES {
+            let s = St { idx: n, ts: n, pc: n, tn: n, ..short_base_a() }.with_valid_checksum();
+            one_enc(cx, &s, true);
+        }
+    }
+    let rounds = cx.budget(600, 8000);
+    for k in 0..rounds {
+        let big = cx.tier != crate::ctx::Tier::Quick && k % 100 == 0;
+        let max_str = if cx.rng.chance(1, 6) { 4096 } else { 64 };
+        let mut st = rand_state(&mut cx.rng, max_str, true, big);
+        if cx.rng.chance(1, 10) {
+            st.ck = rand_string(&mut cx.rng, 80, false, false);
+        }
+        one_enc(cx, &st, true);
+    }
+    run_dec(cx);
+    run_hist(cx);
+    run_policy(cx);
 }
